@@ -2,6 +2,7 @@ import TxdbusModel.Proofs.Sig.Split
 import TxdbusModel.Proofs.Sig.Parse
 import TxdbusModel.Proofs.Wire.Infer
 import TxdbusModel.Proofs.Wire.Claim
+import TxdbusModel.Proofs.Wire.VariantBridge
 import TxdbusModel.Sig.ArgCount
 import TxdbusModel.Wire.InferOrig
 import TxdbusModel.Gen.Wrappers
@@ -290,22 +291,17 @@ theorem prefix_model_invalid_signatures :
   subst this
   simp [Ty.wf] at hwf
 
-/-! ## 4. Variant round trip - the inference side
+/-! ## 4. Variant round trip
 
-Full statement (`variant_roundtrip`), for every value `v` inside the claim (`InClaim`, Wire/Claim.lean):
-    `Code.marshal fuel "v" [v] 0 le none = .ok (n, bytes, _)` for sufficient fuel, and
-    `Code.unmarshal fuel "v" bytes 0 le none = .ok (n, [w])` with `w` equal to `v` under Python equality
-    after the documented normalisation (tuple -> list, bytearray -> list of ints, wrapper -> plain).
-It is the composition of three facts:
-  (a) [proved here]  inside the claim, `sigFromPy v` is the rendering of ONE type `t`, the splitter cuts
-      it into exactly that piece, and `v` CONFORMS to `t` (`Travels`): every scalar fits the type it
-      travels under, element-wise, with variants exactly where the elements differ in Python class;
-  (b) [C02, Wire/Code.lean = Wire/Spec.lean on conforming values] the code model's marshal / unmarshal
-      compute `Spec.encode` / `Spec.decode` at type `.variant` for the spec value denoted by a conforming `v`;
-  (c) [C01, proved: `Spec.decode_encode`] the spec codec round-trips on every value the encoder accepts.
-(b) is owned by the C01/C02 contributor and was not finished when this file was written, so the theorem
-proved here is (a), named `_partial`.  What is missing is only the bridge `Travels okPath v t ->
-exists val, Code.Rep [] val false t v 0 0 /\ Spec.encode accepts val` (Proofs/Wire/Rep.lean) and (b). -/
+`variant_roundtrip` is the second half of the property on the code model of marshal.py (Wire/Code.lean:
+marshal_variant / unmarshal_variant and everything below them), composed of
+  (a) `variant_roundtrip_partial` (kept, it is the inference side): inside the claim, `sigFromPy v` is the
+      rendering of ONE type `t`, the splitter cuts it into exactly that piece, and `v` CONFORMS to `t`
+      (`Travels`);
+  (b) Proofs/Wire/VariantBridge.lean: a conforming value denotes a spec value (`Code.Rep`) that the reference
+      encoder accepts at every offset, as long as the value is not larger than the wire format allows;
+  (c) `C01_roundtrip` (Properties/C01.lean: `Code.marshal_eq_spec`, `Code.unmarshal_eq_spec`,
+      `Spec.decode_encode`, `Code.fromSpecFields_of_rep`). -/
 
 /-- (a): inside the claim the inferred signature is one complete type, splits into itself, and the
 value conforms to it. -/
@@ -316,6 +312,42 @@ theorem variant_roundtrip_partial (okPath : List Char → Bool) (v : PyVal) (h :
   refine ⟨t, sigFromPy_of_inferTy v t ht, genCompleteTypes_render t, ?_, htr⟩
   have := lazyPieces_renderAll [t]
   simpa [renderAll] using this
+
+/-- VARIANT ROUND TRIP.  For every Python value `v` inside the claim (`InClaim`: in each container the
+elements have the class of the first one and share its DBus type, or differ in Python class; every scalar
+fits the type inferred for it; dict keys share one basic type), with
+  * `hkeys`: the keys of every dict hashable and pairwise different under Python equality (what a real
+    dict guarantees; `Code.KeysOK` of C01),
+  * `hs`, `hw`: within the limits of the wire format - every inferred signature at most 255 characters, the
+    value not larger than an array may be (`PyVal.wt`, a generous bound of the encoded size, <= 2^26),
+`marshal('v', [v], off, lendian, [])` of the code model SUCCEEDS with some bytes `bs`, reporting `len(bs)`,
+and `unmarshal('v', pre + bs + suf, off, lendian, [])` returns exactly `[plain v]` - `v` with typed wrappers
+as plain values, tuples as lists, byte arrays as lists of integers, floats bit for bit (so NaN included;
+for NaN-free `v` without tuples / byte arrays this is equality under Python `==`) - and consumes exactly
+`len(bs)` bytes: both byte orders, every start offset, arbitrary bytes before and after, every step budget
+from `fuel0` on.  `okPathV` = `validateObjectPath` accepts.
+Not covered (the only gap to the statement): instances of the `Boolean` wrapper class - they are sent as a
+boolean and come back as `bool` (Python-equal, but not `plain`), and C01's `Rep` relates type 'b' to `bool`
+values only; `fitsBasic` therefore leaves them outside `InClaim`.  The harness covers them. -/
+theorem variant_roundtrip (le : Bool) (v : PyVal) (off : Nat) (pre suf : Bytes)
+    (h : InClaim okPathV v) (hkeys : Code.KeysOK v) (hs : v.sigsShort = true) (hw : v.wt ≤ Spec.maxArray)
+    (hpre : pre.length = off) :
+    ∃ bs fuel0, ∀ fuel, fuel0 ≤ fuel →
+      Code.marshal fuel ['v'] (.list [v]) off le (some []) = .ok (bs.length, bs, some []) ∧
+      Code.unmarshal fuel ['v'] (pre ++ bs ++ suf) off le (some []) = .ok (bs.length, [Code.plain v]) := by
+  obtain ⟨t, ht, htr⟩ := claim_travels okPathV v h
+  exact variant_roundtrip_travels le v t off pre suf ht htr hkeys hs hw hpre
+
+/-- The same for every value that merely CONFORMS to the type inferred for it (`Travels`) - this also
+covers containers such as `[[1], []]` whose elements have one class but not one inferred type, yet all
+conform to the first element's type. -/
+theorem variant_roundtrip_conforming (le : Bool) (v : PyVal) (t : Ty) (off : Nat) (pre suf : Bytes)
+    (ht : inferTy v = some t) (htr : Travels okPathV v t) (hkeys : Code.KeysOK v)
+    (hs : v.sigsShort = true) (hw : v.wt ≤ Spec.maxArray) (hpre : pre.length = off) :
+    ∃ bs fuel0, ∀ fuel, fuel0 ≤ fuel →
+      Code.marshal fuel ['v'] (.list [v]) off le (some []) = .ok (bs.length, bs, some []) ∧
+      Code.unmarshal fuel ['v'] (pre ++ bs ++ suf) off le (some []) = .ok (bs.length, [Code.plain v]) :=
+  variant_roundtrip_travels le v t off pre suf ht htr hkeys hs hw hpre
 
 /-- The conformance hypothesis is exactly where the two repaired defects sat: the types the snapshot
 inferred are types the values do NOT conform to. -/
@@ -361,6 +393,25 @@ example (okPath : List Char → Bool) : InClaim okPath (.list [.int .plain 1, .s
   simp at he; subst he
   exact .scalar _ .s (by ev) (by ev) (by ev)
 
+/-- The side conditions of `variant_roundtrip` are satisfiable together with `InClaim` (see the examples
+above): `[1, 'x']` and `[[1], []]` (the latter through `variant_roundtrip_conforming`). -/
+example : Code.KeysOK (.list [.int .plain 1, .str .plain ['x']]) ∧
+    (PyVal.list [.int .plain 1, .str .plain ['x']]).sigsShort = true ∧
+    (PyVal.list [.int .plain 1, .str .plain ['x']]).wt ≤ Spec.maxArray := by
+  refine ⟨by simp [Code.KeysOK, Code.KeysOKList], by decide, by decide⟩
+
+example : inferTy (.list [.list [.int .plain 1], .list []]) = some (.array (.array (.basic .i))) ∧
+    Travels okPathV (.list [.list [.int .plain 1], .list []]) (.array (.array (.basic .i))) := by
+  refine ⟨by ev, .list _ _ (by simp [Ty.notEntry]) ?_⟩
+  intro e he
+  simp at he
+  rcases he with rfl | rfl
+  · refine .list _ _ (by simp [Ty.notEntry]) ?_
+    intro e he
+    simp at he; subst he
+    exact .basic _ _ (by ev)
+  · exact .list _ _ (by simp [Ty.notEntry]) (by simp)
+
 end Txdbus.C19
 
 #print axioms Txdbus.C19.split_render
@@ -388,4 +439,6 @@ end Txdbus.C19
 #print axioms Txdbus.C19.prefix_model_subclass_under_base_type
 #print axioms Txdbus.C19.prefix_model_invalid_signatures
 #print axioms Txdbus.C19.variant_roundtrip_partial
+#print axioms Txdbus.C19.variant_roundtrip
+#print axioms Txdbus.C19.variant_roundtrip_conforming
 #print axioms Txdbus.C19.prefix_inferred_types_do_not_fit
